@@ -121,7 +121,11 @@ Proof.
 Qed.
 Lemma mkdir_all_shape f p f' : mkdir_all f p = FOk f' ->
   exists new, f' = f ++ dirs new /\ forall q, In q new -> In q (prefixes p) /\ fs_get f q = None.
-Proof. apply mkdir_prefixes_shape. Qed.
+Proof.
+  unfold mkdir_all. destruct (is_dir f p).
+  - intros H. injection H as <-. exists []. split; [now rewrite app_nil_r|intros ? []].
+  - destruct (names_fit p); [apply mkdir_prefixes_shape|discriminate].
+Qed.
 
 Lemma open_trunc_shape f p f' : open_trunc f p = FOk f' ->
   (fs_get f p = None /\ f' = f ++ [(p, File [])]) \/
@@ -129,7 +133,7 @@ Lemma open_trunc_shape f p f' : open_trunc f p = FOk f' ->
 Proof.
   unfold open_trunc, lstat. destruct (fs_get f p) as [[|o|t]|] eqn:E; try discriminate.
   - intros H. injection H as <-. right. eauto.
-  - destruct (is_dir f (pathdir p)); [|discriminate]. intros H. injection H as <-. now left.
+  - destruct (is_dir f (pathdir p) && names_fit p); [|discriminate]. intros H. injection H as <-. now left.
 Qed.
 Lemma write_text_shape f p x f' : write_text f p x = FOk f' ->
   (fs_get f p = None /\ f' = f ++ [(p, File x)]) \/
@@ -137,7 +141,7 @@ Lemma write_text_shape f p x f' : write_text f p x = FOk f' ->
 Proof.
   unfold write_text, lstat. destruct (fs_get f p) as [[|o|t]|] eqn:E; try discriminate.
   - intros H. injection H as <-. right. eauto.
-  - destruct (is_dir f (pathdir p)); [|discriminate]. intros H. injection H as <-. now left.
+  - destruct (is_dir f (pathdir p) && names_fit p); [|discriminate]. intros H. injection H as <-. now left.
 Qed.
 Lemma remove_all_shape f p f' : remove_all f p = FOk f' ->
   f' = filter (fun e => negb (at_or_under p (fst e))) f.
@@ -155,7 +159,7 @@ Lemma rename_shape f a b f' : rename f a b = FOk f' ->
      end).
 Proof.
   unfold rename, lstat. destruct (fs_get f a) as [na|] eqn:Ea; [|discriminate].
-  destruct (negb (is_dir f (pathdir b))); [discriminate|].
+  destruct (negb (is_dir f (pathdir b)) || negb (names_fit b)); [discriminate|].
   destruct (at_or_under a b) eqn:Eu.
   { destruct (beq a b) eqn:E; [|discriminate]. intros H. injection H as <-. left. split; [now apply beq_true|reflexivity]. }
   intros H. right. exists na. split; [reflexivity|]. split; [reflexivity|].
